@@ -261,9 +261,45 @@ def run(ctx):
         if any(re.search(r"HashMap::<[^>]*>::get$", n_) for n_ in names) and any("with_state_key" in n_ for n_ in names):
             reads_ok = len(c2["body"]["locals"]) >= 3 and all(not n_.startswith("ruma_state_res::") or "with_state_key" in n_ for n_ in names)
     ctx.check(reads_ok, "C09.closure", "C09.closure:closure-body", w.where(fn), bad_msg="the closure given to auth_check is not a plain lookup in the auth map")
+    content_fields_rule(ctx, w)
     ctx.assumptions += ["the Event trait's accessors are pure getters of the event (caller-supplied type)"]
     ctx.samples += [{"scenario": "m.room.member join with authorising user in a v8 room", "selection": "create, power_levels, member(sender), member(target), join_rules, member(authoriser)"}]
 
 
 def is_fetch_type(t):
     return t in ("F", "&F") or (t.startswith("impl ") or t.startswith("&impl ")) and "StateEventType" in t and "Fn(" in t
+
+
+# content keys the authorization rules and the auth-event selection name (specification, room versions 1-11), as read through derived helper structs
+SPEC_CONTENT_KEYS = {"creator", "m.federate", "room_version", "join_rule", "join_authorised_via_users_server", "membership", "third_party_invite", "signed",
+                     "public_key", "public_keys", "key_validity_url", "token", "mxid", "users", "users_default", "events", "events_default", "state_default", "ban",
+                     "kick", "redact", "invite", "notifications", "redacts", "allow"}
+
+
+def content_fields_rule(ctx, w):
+    """C09.content-fields: the helper structs through which selection and authorisation read event contents accept each field under exactly one
+    key (no serde alias): a second spelling makes a key the specification does not name select auth events and steer the outcome."""
+    import json as _json
+    ctx.rule("C09.content-fields", "every derived field visitor of ruma_state_res::events accepts exactly one key per field (number of accepted key strings == "
+                                   "number of fields): no alias spelling of a content field is read")
+    n = 0
+    for fn in w.all_fns():
+        if "body" not in fn or not fn["path"].startswith("<ruma_state_res::events::") or not fn["path"].endswith("__FieldVisitor as serde_core::de::Visitor<'de>>::visit_str"):
+            continue
+        names = set()
+        for b in fn["body"]["blocks"]:
+            for mm in re.finditer(r'"k": "const", "ty": "&str", "v": "([^"]+)"', _json.dumps(b["s"]) + _json.dumps(b["t"])):
+                names.add(mm.group(1))
+        adt = w.adts.get(fn["path"][1:].split(" as serde_core::de::Visitor")[0].replace("__FieldVisitor", "__Field"))
+        nf = len([v for v in adt["variants"] if v["name"] != "__ignore"]) if adt else None
+        n += 1
+        short = re.sub(r"::_::<impl.*", "", fn["path"][1:]).rsplit("::", 2)[-2:]
+        key = "C09.content-fields:" + "::".join(short)
+        if nf is None:
+            ctx.unrecognised("C09.content-fields", key, w.where(fn), "field enum of the derived visitor not found")
+        else:
+            foreign = sorted(names - SPEC_CONTENT_KEYS)
+            ctx.check(len(names) == nf and not foreign, "C09.content-fields", key, w.where(fn), ok_msg=f"keys {sorted(names)}",
+                      bad_msg=(f"{nf} field(s) but the keys {sorted(names)} are accepted: an alias spelling is read as if it were the specified field" if len(names) != nf
+                               else f"reads {foreign}, which is not a content key the authorization rules name"))
+    ctx.floor("derived content field visitors in ruma_state_res::events", n, 8)
